@@ -56,6 +56,16 @@ func guardsOf(fn *ssa.Function) []guard {
 				gs = append(gs, guard{iff: iff, x: x.X, y: x.Y, op: op})
 				// integer comparisons with a constant have two spellings (x > k  <=>  x >= k+1):
 				// add the other one so that either matches an obligation
+				// `x >= 2^63` on an unsigned 64-bit value is the sign test `int64(x) < 0`
+				if cv, isC := x.Y.(*ssa.Const); isC && cv.Value != nil && cv.Value.Kind() == constant.Int && cv.Value.ExactString() == "9223372036854775808" {
+					zero := ssa.NewConst(constant.MakeInt64(0), types.Typ[types.Int64])
+					switch op {
+					case token.GEQ:
+						gs = append(gs, guard{iff: iff, x: x.X, y: zero, op: token.LSS})
+					case token.LSS:
+						gs = append(gs, guard{iff: iff, x: x.X, y: zero, op: token.GEQ})
+					}
+				}
 				if cv, isC := x.Y.(*ssa.Const); isC && cv.Value != nil && cv.Value.Kind() == constant.Int && isIntegerType(x.X.Type()) {
 					one := constant.MakeInt64(1)
 					plus := ssa.NewConst(constant.BinaryOp(cv.Value, token.ADD, one), cv.Type())
@@ -145,6 +155,7 @@ type obCtx struct {
 }
 
 func newOb(c *Ctx, r *Report, rule string, fn *ssa.Function) *obCtx {
+	c.curRoot = fn
 	if fn == nil {
 		return nil
 	}
